@@ -181,6 +181,14 @@ Proof.
   intro P. destruct Hx as [Hx|Hx]; congruence.
 Qed.
 
+Lemma tok_noup_if l :
+  tok l -> (forall init x, l = init ++ [x] -> sg_delivered x = true \/ sg_probe x = false) -> noup l.
+Proof.
+  intros Ht Hl. destruct l as [|g r]; [constructor|].
+  destruct (@exists_last _ (g :: r)) as (init & x & E); [discriminate|].
+  rewrite E in *. apply tok_last_noup; [exact Ht|]. eapply Hl. reflexivity.
+Qed.
+
 (* ------------------------------------------------------------------ the table ends at the offset *)
 Fixpoint til (l : list seg) (off : Z) : Prop :=
   match l with
